@@ -75,6 +75,19 @@ def energy(P):
     return kin - m1 / P["r1"] - mu / P["r2"] - F(1, 2) * (P["x"] ** 2 + P["y"] ** 2) - F(1, 2) * mu * m1
 
 
+def kinetic(P):
+    return F(1, 2) * (P["vx"] ** 2 + P["vy"] ** 2 + P["vz"] ** 2)
+
+
+def grav(P):
+    mu, m1 = P["mu"], 1 - P["mu"]
+    return -m1 / P["r1"] - mu / P["r2"] - F(1, 2) * mu * m1
+
+
+def ueff(P):
+    return -F(1, 2) * (P["x"] ** 2 + P["y"] ** 2) + grav(P)
+
+
 def jacobi_raw(P):
     mu, m1 = P["mu"], 1 - P["mu"]
     return P["x"] ** 2 + P["y"] ** 2 + 2 * (m1 / P["r1"] + mu / P["r2"]) - (P["vx"] ** 2 + P["vy"] ** 2 + P["vz"] ** 2)
@@ -87,6 +100,7 @@ def relerr(val, exact):
 
 def exact_part(ck: Check):
     from hiten.algorithms.common.energy import crtbp_energy, energy_to_jacobi
+    import hiten.algorithms.common.energy as energy_mod
     from hiten.algorithms.dynamics.rtbp import (_crtbp_accel, _jacobian_crtbp, _var_equations, jacobian_dynsys,
                                                 rtbp_dynsys, variational_dynsys)
     r = tlc(SPEC / "kernels" / "MCField.tla", SPEC / "cfg" / ("Field.quick.cfg" if ck.quick else "Field.thorough.cfg"), timeout=3000)
@@ -104,6 +118,7 @@ def exact_part(ck: Check):
         jsel = [Jx[3][0], Jx[3][1], Jx[3][2], Jx[4][1], Jx[4][2], Jx[5][2]]
         ok = ([modp(v) for v in Fx] == list(rec["F"]) and [modp(v) for v in jsel] == list(rec["J"])
               and modp(Ex) == rec["E"] and modp(Cx) == rec["C"]
+              and modp(kinetic(P)) == rec["T"] and modp(grav(P)) == rec["G"] and modp(ueff(P)) == rec["U"]
               and [modp(P[k]) for k in ("x", "y", "z", "mu", "r1", "r2")] == list(rec["pt"]))
         if not ok:
             raise MachineryError(f"Fraction evaluator disagrees with Field.tla on witness {w}")
@@ -142,6 +157,20 @@ def exact_part(ck: Check):
                          f"crtbp_energy = {E_code!r} but the conserved energy is {float(Ex)!r} at witness {w} (z = {float(P['z'])})", case)
         e = relerr(energy_to_jacobi(E_code), -2 * Ex)
         worst["jacobi"] = max(worst["jacobi"], e)
+        # the documented split of the energy and its helpers (TLC: EnergyDecomposition)
+        for name, got, exact in (("kinetic_energy", energy_mod.kinetic_energy(st), kinetic(P)),
+                                 ("gravitational_potential", energy_mod.gravitational_potential(st, mu), grav(P)),
+                                 ("effective_potential", energy_mod.effective_potential(st, mu), ueff(P)),
+                                 ("kinetic_energy+effective_potential", energy_mod.kinetic_energy(st) + energy_mod.effective_potential(st, mu), Ex),
+                                 ("primary_distance", energy_mod.primary_distance(st, mu), P["r1"]),
+                                 ("secondary_distance", energy_mod.secondary_distance(st, mu), P["r2"]),
+                                 ("jacobi_to_energy(energy_to_jacobi)", energy_mod.jacobi_to_energy(energy_to_jacobi(E_code)), Ex)):
+            e = relerr(got, exact)
+            worst["energy_split"] = max(worst.get("energy_split", 0.0), e)
+            if e > 1e-10:
+                spatial = P["z"] != 0
+                ck.violation(f"{name}|differs-from-the-first-integral-split" + ("-spatial" if spatial else ""),
+                             f"{name} = {float(got)!r} but the exact value is {float(exact)!r} at witness {w} (z = {float(P['z'])})", case)
         if len(ck.cov["samples"]) < 2 and nontriv:
             ck.sample({"witness": w, "state": st.tolist(), "mu": mu, "ax_code": float(f_code[3]), "ax_exact": str(Fx[3]),
                        "J30_code": float(J_code[3, 0]), "J30_exact": str(Jx[3][0])})
